@@ -20,12 +20,22 @@ def run(rep, tier):
     rep.rule("R2", "is_jump_target is `offset in labels`, labels being the bound finder's result extended by the exception-table targets (3.11+)")
     rep.rule("R3", "the 3.13 inline-cache table used by the finders equals CPython 3.13's cache counts")
     rep.rule("R4", "3.11+: the exception-table targets that are added to the label set are decoded as CPython decodes them (varint and entry obligations of C17-R1/R2, restated)")
+    rep.rule("R6", "the label finders, operand unpackers and decoder entry points keep no state between calls and hand out no memoised mutable result (C18 R1/R3, restated "
+                   "for these functions): is_jump_target must not depend on what was disassembled before")
     rep.rule("R5", "the label finders read their operands through an unpacker that yields the instruction's full operand (C02-R4: width, EXTENDED_ARG carry), restated")
     from ..report import SubReport, merge_sub
     sub2 = SubReport("C02")
     T = collect(rep, "C04", _work, also={"C02": (sub2, ("R4",))})
     merge_sub(rep, sub2, "R5", "C02")
     extra_rules(rep, T, tier)
+    # R6: the label list a finder returns is the caller's own (the decoder appends exception-table targets to it): C18's shared-state audit, restricted to the
+    # label finders, the operand unpackers and the decoder entry points
+    from . import c18
+    sub18 = SubReport("C18", tier=tier)
+    c18.run(sub18, tier)
+    merge_sub(rep, sub18, "R6", "C18", only_rules=("R1", "R3"),
+              only_constructs=lambda c_: c_.startswith(("xdis.wordcode.", "xdis.cross_dis.findlabels", "xdis.cross_dis.unpack_opargs", "xdis.bytecode.get_instructions_bytes",
+                                                        "xdis.bytecode.get_logical_instruction_at_offset", "xdis.bytecode.parse_exception_table")))
 
 
 def extra_rules(rep, T, tier="quick"):
